@@ -156,6 +156,10 @@ pub fn run(ctx: &mut Ctx) {
     let plain = { let mut o = mdl.clone(); for k in ["age_over_18", "age_over_21", "age_over_65"] { o.as_object_mut().unwrap().remove(k); } o };
     for n in 0..100u32 { run_record(ctx, "dynamic:age-over-every", m1, "OrgIso1801351", &set(&plain, &format!("age_over_{n:02}"), json!(n % 2 == 0)), "age_over_NN"); }
     { let mut o = plain.clone(); for n in 0..100u32 { o.as_object_mut().unwrap().insert(format!("age_over_{n:02}"), json!(n % 3 == 0)); } run_record(ctx, "dynamic:age-over-all", m1, "OrgIso1801351", &o, "all hundred"); }
+    // near-miss keys next to GENUINE age_over_NN keys (18, 21, 65 of the base record), sorting before, between and after them:
+    // an ignored key must not take its neighbours with it
+    for k in ["age_over_1", "age_over_100", "age_over_ab", "age_over_", "AGE_OVER_18", "age_over_18 ", "xage_over_18", "age_over_+1", "age_over_18_verified", "age_over_2x", "age_over_640", "age_over_00x", "age_over_7"] {
+        run_record(ctx, "dynamic:age-over-near-miss-among-genuine", m1, "OrgIso1801351", &set(&mdl, k, json!(true)), k); }
     for k in ["age_over_1", "age_over_100", "age_over_ab", "age_over_", "AGE_OVER_18", "age_over_1８", "age_over_18 ", "xage_over_18", "age_over_+1"] { run_record(ctx, "dynamic:age-over-near-miss", m1, "OrgIso1801351", &set(&plain, k, json!(true)), k);
         run_record(ctx, "dynamic:age-over-near-miss", m1, "OrgIso1801351", &set(&plain, k, json!("not a bool")), k); }
     for v in wrong_types() { run_record(ctx, "dynamic:age-over-value", m1, "OrgIso1801351", &set(&plain, "age_over_30", v), "non-boolean value"); }
